@@ -186,16 +186,15 @@ Definition closer_return (netconf : bool) : pc := if netconf then C_RETURN_NC el
 (* an operation in flight (ReadUntilPrompt & co.) polling Channel.Read *)
 Definition consumer_code : code label :=
   [ (* 0  select { case <-ctx.Done(): return nil, ctx.Err(); default: } -- may expire any time *)
-    Lb L_op_ctx_check (IEnv [5; 1]);
+    Lb L_op_ctx_check (IEnv [4; 1]);
     (* 1  Channel.Read: select { case err := <-c.Errs: return nil, err; default: } *)
-    Lb L_chread_errs (ISelect [(Rcv CH_ERRS, 5)] (SDefault 2));
+    Lb L_chread_errs (ISelect [(Rcv CH_ERRS, 4)] (SDefault 2));
     (* 2  select { case <-c.exited: return nil, ErrConnectionError; default: } *)
-    Lb L_chread_exited (ISelect [(Rcv CH_EXITED, 5)] (SDefault 3));
-    (* 3  b := c.Q.Dequeue(): nil (sleep) / data, pattern not yet seen (loop) / seen (return) *)
-    Lb L_chread_dequeue (IEnv [4; 0; 5]);
-    (* 4  time.Sleep(c.ReadDelay); continue *)
-    Lb L_op_sleep (ISleep 0);
-    (* 5 *) Lb L_op_return IExit ].
+    Lb L_chread_exited (ISelect [(Rcv CH_EXITED, 4)] (SDefault 3));
+    (* 3  b := c.Q.Dequeue(): nil (sleep, loop) / data, pattern not yet seen (loop) / seen (return);
+          the caller's time.Sleep(c.ReadDelay) touches nothing shared and is fused into this step *)
+    Lb L_chread_dequeue (IEnv [0; 4]);
+    (* 4 *) Lb L_op_return IExit ].
 
 (* netconf Driver.read *)
 Definition N_SEND := 4.
@@ -224,20 +223,19 @@ Definition rpc_code : code label :=
     Lb L_rpc_cancel (IAtomicWrite V_CTX 1 3);
     (* 3 *) Lb L_op_return IExit ].
 
-Definition P_SEND := 4.
+Definition P_SEND := 3.
 Definition poller_code : code label :=
   [ (* 0 *) Sil IIdle;
     (* 1  if ctx.Err() != nil { return } *)
-    Lb L_poll_ctx_err (IAtomic [([(V_CTX, 1)], [], 5); ([(V_CTX, 0)], [], 2)]);
-    (* 2  data = d.getMessage(m.MessageID): found or not (decided by the environment) *)
-    Lb L_poll_get_message (IEnv [P_SEND; 3]);
-    (* 3  time.Sleep(5 * time.Microsecond) *)
-    Lb L_poll_sleep (ISleep 1);
-    (* 4  done <- data *)
-    Lb L_poll_send_done (ISend CH_RDONE 5);
-    (* 5  deferred close(done) *)
-    Lb L_poll_defer_close_done (IClose CH_RDONE 6);
-    (* 6 *) Sil IExit ].
+    Lb L_poll_ctx_err (IAtomic [([(V_CTX, 1)], [], 4); ([(V_CTX, 0)], [], 2)]);
+    (* 2  data = d.getMessage(m.MessageID): found (break) or not (decided by the environment);
+          the 5 microsecond time.Sleep before the next round is fused into this step *)
+    Lb L_poll_get_message (IEnv [P_SEND; 1]);
+    (* 3  done <- data *)
+    Lb L_poll_send_done (ISend CH_RDONE 4);
+    (* 4  deferred close(done) *)
+    Lb L_poll_defer_close_done (IClose CH_RDONE 5);
+    (* 5 *) Sil IExit ].
 
 (* the environment: changes the connection while the transport is open and quiet *)
 Definition env_code (allowed : list nat) : code label :=
@@ -426,12 +424,11 @@ Definition old_sender_code (ch : chan) : code label :=
     Sil IExit ].
 
 Definition old_consumer_code : code label :=
-  [ Lb L_op_ctx_check (IEnv [5; 1]);
-    Lb L_chread_errs (ISelect [(Rcv OCH_ERRS, 5)] (SDefault 2));
+  [ Lb L_op_ctx_check (IEnv [4; 1]);
+    Lb L_chread_errs (ISelect [(Rcv OCH_ERRS, 4)] (SDefault 2));
     (* if c.readLoopExited { return nil, ErrConnectionError } *)
-    Lb L_ochread_read_flag (IPlainRead OV_FLAG [3; 5]);
-    Lb L_chread_dequeue (IEnv [4; 0; 5]);
-    Lb L_op_sleep (ISleep 0);
+    Lb L_ochread_read_flag (IPlainRead OV_FLAG [3; 4]);
+    Lb L_chread_dequeue (IEnv [0; 4]);
     Lb L_op_return IExit ].
 
 Definition old_ncreader_code : code label :=
